@@ -974,8 +974,10 @@ def front_end(ctx, drv, rng, thorough, W, files, tot):
     r = ctx.tlc_expect_ok(['cusched'], 'MC_CUFront.tla', 'MC_CUFront_2simd.cfg', timeout=900, workers=min(W, 4))
     ctx.log('MC_CUFront_2simd (one wavefront on each of 2 SIMDs): %d distinct states' % r.distinct)
     if thorough:
-        for cfg in ('MC_CUFront.cfg', 'MC_CUFront_live.cfg', 'MC_CUFront_3wf.cfg'):
-            r = ctx.tlc_expect_ok(['cusched'], 'MC_CUFront.tla', cfg, timeout=3000, workers=W)
+        # MC_CUFront_3wf.cfg (2 + 1 wavefronts on 2 SIMDs: 285 428 states, holds) takes 10 minutes with 4 workers and is not
+        # part of the tiers; see design/C14.md
+        for cfg in ('MC_CUFront.cfg', 'MC_CUFront_live.cfg'):
+            r = ctx.tlc_expect_ok(['cusched'], 'MC_CUFront.tla', cfg, timeout=3000, workers=min(W, 8))
             ctx.log('%s: %d distinct states' % (cfg, r.distinct))
     failed = []
     # quick tier: two of the four deviations (which two depends on the seed), thorough: all
